@@ -231,7 +231,12 @@ func Dot(spec *Spec, w io.WriteCloser, fromNode, toNode string) error {
 
 // dotId quotes a node name for use as a Graphviz ID.  (A name like
 // "wait-for-it" or "@next" isn't an ID unless it's quoted.)
+//
+// Graphviz reads \" as a quote and scans two backslashes as a unit, so
+// a backslash is doubled: a name that ends in one would otherwise
+// escape the closing quote.
 func dotId(name string) string {
+	name = strings.Replace(name, `\`, `\\`, -1)
 	return `"` + strings.Replace(name, `"`, `\"`, -1) + `"`
 }
 
